@@ -266,3 +266,38 @@ def unrolled_body(fn_node: ast.AST, params=()) -> List[ast.stmt]:
         else:
             out.append(st)
     return out
+
+
+def inline_self_calls(cls_lookup, self_name, e: ast.AST, depth: int = 2) -> ast.AST:
+    """copy of `e` in which calls  self.m(a1, ..., ak)  of single-return helper methods are replaced by the helper's return
+    expression with its parameters substituted (cls_lookup: method name -> FunctionInfo or None)"""
+    import copy as _copy
+
+    class Sub(ast.NodeTransformer):
+        def __init__(self, amap):
+            self.amap = amap
+
+        def visit_Name(self, n):
+            if isinstance(n.ctx, ast.Load) and n.id in self.amap:
+                return _copy.deepcopy(self.amap[n.id])
+            return n
+
+    class Inl(ast.NodeTransformer):
+        def __init__(self, d):
+            self.d = d
+
+        def visit_Call(self, c):
+            self.generic_visit(c)
+            recvs = (self_name,) if isinstance(self_name, str) else tuple(self_name)
+            if self.d > 0 and isinstance(c.func, ast.Attribute) and isinstance(c.func.value, ast.Name) and c.func.value.id in recvs \
+                    and not c.keywords and not any(isinstance(a, ast.Starred) for a in c.args):
+                m = cls_lookup(c.func.attr)
+                if m is not None and m.self_name is not None and len(m.params) == len(c.args) + 1:
+                    body = [s for s in m.node.body if not (isinstance(s, ast.Expr) and isinstance(s.value, ast.Constant))]
+                    if len(body) == 1 and isinstance(body[0], ast.Return) and body[0].value is not None:
+                        amap = dict(zip(m.params[1:], c.args))
+                        amap[m.params[0]] = ast.Name(id=c.func.value.id, ctx=ast.Load())
+                        return Inl(self.d - 1).visit(Sub(amap).visit(_copy.deepcopy(body[0].value)))
+            return c
+
+    return Inl(depth).visit(_copy.deepcopy(e))
